@@ -14,7 +14,9 @@ import queries as Q      # noqa
 ATTRS = [
     {},
     {"a": 1, "b": "x"},
-    {"name": "näme☃", "ctl": "tab\there\nnl\x01", "none": None, "t": True, "f": False, "pi": 3.25, "big": 10 ** 20},
+    {"name": "näme☃", "ctl": "tab\there\nnl\x01", "none": None, "t": True, "f": False, "pi": 3.25, "big": 10 ** 20,
+     # keys that coincide with read-only properties of the node classes, and one-letter keys (substrings of the link attributes' names)
+     "size": 7, "path": "p/q", "is_leaf": "no", "e": 2, "n": 3},
     {"nested": {"k": [1, 2, {"z": None}], "e": []}, "lst": [[], [1, [2]]], "s": ""},
     {"x": 0, "_private": 5, "Children": "not the key"},
 ]
